@@ -228,7 +228,30 @@ def T(tag, v=None):
 def classify_native(events, source_cache):
   """Maps NATIVE events to (violations, exempt_count, unclassified_count)."""
   viol, exempt, unknown = [], 0, 0
+  memo = source_cache.setdefault('__verdicts__', {})
   for kind, fn, lineno, pos in events:
+    # the same instruction fires many times in loops: classify each (kind, file, position) once
+    key = (kind, fn, lineno, tuple(pos) if pos is not None else None)
+    if key in memo:
+      v = memo[key]
+      if v == 'exempt':
+        exempt += 1
+      elif v == 'unknown':
+        unknown += 1
+      else:
+        viol.append(v)
+      continue
+    before = (len(viol), exempt, unknown)
+    _classify_one(kind, fn, lineno, pos, source_cache, viol, counts := [0, 0])
+    exempt += counts[0]
+    unknown += counts[1]
+    memo[key] = viol[-1] if len(viol) > before[0] else ('exempt' if counts[0] else 'unknown')
+  return viol, exempt, unknown
+
+
+def _classify_one(kind, fn, lineno, pos, source_cache, viol, counts):
+  exempt = unknown = 0
+  for _once in (0,):
     if fn not in source_cache:
       try:
         with open(fn) as f:
@@ -301,4 +324,4 @@ def classify_native(events, source_cache):
         unknown += 1
     else:
       viol.append('tracer callee called natively from generated code, line %d: %s' % (lineno, text))
-  return viol, exempt, unknown
+  counts[0], counts[1] = exempt, unknown
